@@ -62,6 +62,10 @@ public:
   std::function<bool(int, const char*)> extra_enabled;
   // a granted thread that does not reach its next schedule point within this time is reported as hung
   int hang_timeout_ms{8000};
+  // called by finish() before parked threads are unwound, when some thread is blocked inside an (emulated) atomic wait:
+  // the harness makes the waited-for condition true so that the wait returns (needed for waits through libstdc++'s
+  // proxy word, e.g. atomic<bool>; for a directly waited 32-bit word finish() flips its top bit itself)
+  std::function<void()> before_abort;
 
   Controller() {
     current() = this;
@@ -129,6 +133,9 @@ public:
     {
       std::unique_lock<std::mutex> l(m_lock);
       std::vector<const void*> poked;
+      bool                     any_blk = false;
+      for (auto& s : m_slots) any_blk = any_blk || (s.st == PARKED && s.fblk);
+      if (any_blk && before_abort) before_abort();
       for (auto& s : m_slots)
         if (s.st == PARKED) {
           s.abort = true;
@@ -272,6 +279,32 @@ private:
   std::condition_variable  m_cv;
   std::vector<Slot>        m_slots;
   std::vector<std::thread> m_threads;
+};
+
+// Per-case wall-clock watchdog: if the case is not finished (destructor not reached) within [ms], [fire] runs on the
+// watchdog thread (harnesses print one "ERR:hang ..." result line for the case and _exit, the runner resumes with the
+// next case).
+class SchedWatchdog {
+public:
+  SchedWatchdog(int ms, std::function<void()> fire)
+    : m_thread([this, ms, fire]() {
+        std::unique_lock<std::mutex> l(m_lock);
+        if (!m_cv.wait_for(l, std::chrono::milliseconds(ms), [this] { return m_done; })) fire();
+      }) {}
+  ~SchedWatchdog() {
+    {
+      std::unique_lock<std::mutex> l(m_lock);
+      m_done = true;
+    }
+    m_cv.notify_all();
+    m_thread.join();
+  }
+
+private:
+  std::mutex              m_lock;
+  std::condition_variable m_cv;
+  bool                    m_done{false};
+  std::thread             m_thread;
 };
 
 } // namespace ltv
